@@ -1,5 +1,6 @@
-\* C19: one metric, budget 2 with a bonus of 2 per step beyond a global budget of 1; no
-\* PutMapping, so that the depth goes into creations, clock steps, resets and reopens.
+\* C19: flood limit against deletion of the NEWEST ids: one metric, budget 1 beyond a global
+\* budget of 1, four keys; delete requests only remove an upper set of the present ids (so that
+\* MAX(id) of the table drops, possibly back inside the global budget), then the metric asks again.
 INIT Init
 NEXT Next
 CONSTANTS
@@ -14,25 +15,25 @@ CONSTANTS
   Payloads <- Pay1
   RacePayloads = {}
   RaceNames = {}
-  Keys <- K6
+  Keys <- K4
   MetricSeq <- M1
   PutArgs = {}
   BootSets = {}
-  ResetLimits = {0, 1, 3}
-  MaxBudget = 2
+  ResetLimits = {}
+  MaxBudget = 1
   StepSec = 10
-  BudgetBonus = 2
+  BudgetBonus = 1
   GlobalBudget = 1
   MaxResetLimit = 10000
   U32Q = 429496729
   U32R = 6
-  Ticks = {7, 10}
+  Ticks = {}
   Clock0 = 1003
-  DelMax = 2
-  DelNewestOnly = FALSE
-  MaxOps = 6
+  DelMax = 3
+  DelNewestOnly = TRUE
+  MaxOps = 5
   MaxSnaps = 1
-  MaxClock = 27
+  MaxClock = 0
   ExportFrom = 0
   WithPost = FALSE
   Bugs = {}
